@@ -1432,3 +1432,38 @@ func sortPos(p []token.Pos) {
 		}
 	}
 }
+
+// BUILTIN-VALUES: FLAGDEF's argument ("the value in the storage when the option is omitted is the
+// default the help documents, and passing that default explicitly stores the same value") rests on
+// pflag's own typed registrars, whose Set parses the text DefValue prints back to the same value. An
+// option registered through a hand-written pflag.Value (Var / VarP / VarPF) runs user code
+// on an explicitly passed value: its Set may refuse or change the documented default, which no rule
+// here evaluates. Such a registration is reported, not trusted.
+func (c *Ctx) builtinValues(rule string, funcs []*FuncInfo, clause string) int {
+	total, bad := 0, 0
+	for _, fi := range funcs {
+		if fi == nil || fi.Decl.Body == nil {
+			continue
+		}
+		info := fi.Pkg.TypesInfo
+		for _, call := range callsIn(fi.Decl.Body, true) {
+			h := calleeOf(info, call)
+			if h == nil || !isPflagSet(h) {
+				continue
+			}
+			switch h.Name() {
+			case "Var", "VarP", "VarPF": // AddFlag re-adds a Flag object that one of the typed registrars built
+				bad++
+				c.Violation(rule, fmt.Sprintf("%s/%s#%d", funcName(fi.Obj), h.Name(), bad), call.Pos(), fmt.Sprintf("an option is registered through %s with a hand-written value type: what its Set method does with the documented default when the user passes it explicitly (refuse it, change it) is user code that FLAGDEF's argument does not cover", h.Name())).Clause = clause
+			default:
+				if strings.Contains(h.Name(), "Var") {
+					total++
+				}
+			}
+		}
+	}
+	if bad == 0 {
+		c.OK(rule, "scan", token.NoPos, fmt.Sprintf("%d registrations, all through pflag's typed registrars", total)).Clause = clause
+	}
+	return total
+}
